@@ -4,7 +4,7 @@ CONSTANTS
   MaxPackets = 3
   NR = 1
   RFns <- RFnsTcp
-  Crtps <- CrtpsTcp
+  SendSets <- Send1Tcp
   MaxSends = 2
   Mode = "tcp"
   LateRegister = FALSE
